@@ -300,3 +300,242 @@ Proof.
   destruct F2 as [G3 P3]. split; [exact G3|].
   rewrite Phi_set_dst in P2. unfold Phi at 2. rewrite <- T1. nia.
 Qed.
+
+Lemma slots_nonneg m p : msg_ok m -> wf_ptr m p -> 0 <= slots p.
+Proof. intros Hm Hw. apply (slots_le_readSize m p Hm Hw). Qed.
+
+Lemma awp_step f : A_cs f -> A_wp (S f).
+Proof.
+  intros IH w dsid off src fc Hd Hm Hr Hreg Hs Hsh. rewrite write_ptr_S.
+  pose proof (wcost_nonneg src) as Wn. pose proof (slots_nonneg _ src Hm Hs) as Sn.
+  destruct (p_valid src) eqn:V; cbn [negb].
+  2:{ eapply rpostk_weaken; [|apply lift0_write_k; assumption]. lia. }
+  pose proof (Hs V) as [Hseg Hobj]. specialize (Hsh V). unfold wf_obj in Hobj.
+  destruct (p_kind src) eqn:K.
+  - (* struct *)
+    destruct Hobj as (Hz & Ho & He).
+    destruct (os_isZero (p_size src)).
+    { destruct (rawStructPointer (-1) (mkOS 0 0)) eqn:E; [|vm_compute in E; discriminate].
+      cbn [of_opt_panic bind]. eapply rpostk_weaken; [|apply lift0_write_k; assumption]. lia. }
+    cbn [is_src]. rewrite Bool.orb_true_r. cbn [orb]. cbv zeta.
+    destruct (pad_size_wf _ Hz) as (Hzc & Hle & H8). cbv zeta in Hzc, Hle, H8.
+    assert (wcost src = padToWord (totalSize (mkOS (padToWord (DataSize (p_size src))) (PointerCount (p_size src)))) + 16)
+      as Ew by (unfold wcost; rewrite V, K; reflexivity).
+    assert (slots src = PointerCount (p_size src)) as Es by (unfold slots; rewrite V, K; reflexivity).
+    set (csz := mkOS (padToWord (DataSize (p_size src))) (PointerCount (p_size src))) in *.
+    pose proof (alloc_nopanic (w_dst w) dsid (totalSize csz)) as NP.
+    destruct (alloc (w_dst w) dsid (totalSize csz)) as [[[m1 nsid] naddr]| |] eqn:EA; cbn [bind];
+      [|exact I|congruence].
+    pose proof (totalSize_bound _ Hzc) as Hts.
+    pose proof (alloc_tot (w_dst w) dsid (totalSize csz) m1 nsid naddr Hd (proj1 Hreg) ltac:(lia) EA) as T1.
+    destruct (alloc_safe (w_dst w) dsid (totalSize csz) m1 nsid naddr Hd (proj1 Hreg) ltac:(lia) EA)
+      as (D1 & G1 & S1 & A0 & A1 & A2 & A3 & _).
+    assert (wgood w (w_set_dst w m1)) as Gw1 by (apply wgood_set_dst; auto).
+    set (dstp := mkPtr true nsid naddr 0 csz maxDepth KStruct false false false).
+    pose proof (IH (w_set_dst w m1) dstp src D1 Hm Hr) as C.
+    assert (dst_ok m1 dstp) as Hdo.
+    { split; [reflexivity|]. split; [exact Hzc|]. unfold dstp, region_ok. cbn [p_seg p_off p_size].
+      rewrite (totalSize_wf _ Hzc) in *. lia. }
+    specialize (C Hdo (conj Hs (fun _ => K))). rewrite V in C.
+    destruct (copy_struct f true (w_set_dst w m1) dstp InSrc src) as [w2| |]; cbn [bind]; [|exact I|exact C].
+    cbn [rpostk] in C. destruct C as [C P2]. rewrite Phi_set_dst in P2.
+    pose proof (wgood_trans _ _ _ Gw1 C) as G2. destruct G2 as (D2 & Gr2 & S2 & R2).
+    destruct (rawStructPointer_some 0 (p_size dstp) H8) as [raw ->]. cbn [of_opt_panic bind].
+    eapply rpostk_weaken; [|eapply (rpostk_trans w w2 (padToWord (totalSize csz) + 32 * PointerCount (p_size src)) 16);
+                             [split; [exact D2|split; [exact Gr2|split; [exact S2|exact R2]]]| |]].
+    + lia.
+    + unfold Phi at 2. lia.
+    + apply place_k; auto; try lia.
+      * eapply region_grows; eassumption.
+      * unfold dstp. cbn [p_seg]. destruct Gr2 as [Gn _]. cbn [w_dst w_set_dst] in *.
+        destruct C as (_ & [Gn2 _] & _). cbn [w_dst w_set_dst] in Gn2. lia.
+  - (* list *)
+    destruct Hobj as (Ho & Hl & Hr').
+    cbn [is_src]. rewrite Bool.orb_true_r.
+    destruct (seg_of_ok (w_src w) src Hm) as [Hsl _].
+    assert (wcost src = padToWord (list_allocSize src) + 16) as Ew by (unfold wcost; rewrite V, K; reflexivity).
+    assert (slots src = if p_bit src then 0 else p_len src * PointerCount (p_size src)) as Es
+      by (unfold slots; rewrite V, K; reflexivity).
+    set (content := if p_bit src then (p_len src + 7) / 8 else p_len src * totalSize (p_size src)).
+    assert (0 <= content /\ p_off src + content <= zlen (seg_of (w_src w) src)) as [Hc0 Hc1].
+    { unfold content. destruct (p_bit src); [lia|]. destruct Hr' as [Hz Hr']. pose proof (totalSize_bound _ Hz). split; [nia|lia]. }
+    assert (list_allocSize src = if p_comp src then content + 8 else content) as Hsz.
+    { unfold list_allocSize, content. rewrite V. cbn [negb].
+      destruct (p_bit src) eqn:B.
+      - destruct (p_comp src); [destruct Hsh as (_ & _ & X); discriminate X|]. apply bitListSize_spec. lia.
+      - destruct Hr' as [Hz Hr']. pose proof (totalSize_bound _ Hz).
+        rewrite Z.mul_comm. rewrite times_some by (rewrite Z.mul_comm; nia). rewrite (Z.mul_comm (totalSize _)).
+        destruct (p_comp src); cbn [negb]; [|reflexivity]. destruct Hsh as (H8 & _). unfold maxSegmentSize in Hsl.
+        apply u32_id. lia. }
+    pose proof (alloc_nopanic (w_dst w) dsid (list_allocSize src)) as NP.
+    destruct (alloc (w_dst w) dsid (list_allocSize src)) as [[[m1 nsid] naddr]| |] eqn:EA; cbn [bind];
+      [|exact I|congruence].
+    assert (0 <= list_allocSize src) as Hsz0 by (rewrite Hsz; destruct (p_comp src); lia).
+    pose proof (alloc_tot (w_dst w) dsid (list_allocSize src) m1 nsid naddr Hd (proj1 Hreg) Hsz0 EA) as T1.
+    destruct (alloc_safe (w_dst w) dsid (list_allocSize src) m1 nsid naddr Hd (proj1 Hreg) Hsz0 EA)
+      as (D1 & G1 & S1 & A0 & A1 & A2 & A3 & _).
+    assert (wgood w (w_set_dst w m1)) as Gw1 by (apply wgood_set_dst; auto).
+    match goal with |- rpostk w ?KK (bind (bind _ ?K1) ?K0) =>
+      assert (forall w2 doff, wgood w w2 -> Phi w2 <= Phi w + padToWord (list_allocSize src) ->
+                0 <= doff -> naddr <= doff ->
+                doff + content <= zlen (mem m1 nsid) -> grows m1 (w_dst w2) ->
+                (if p_comp src then doff = naddr + 8 else doff = naddr) ->
+                rpostk w KK (bind (K1 (w2, doff, content)) K0)) as Htail end.
+    { intros w2 doff Gw2 Pw2 Hd0 Hd1 Hd2 Gm Hdo. cbv beta iota zeta.
+      destruct Gw2 as (D2 & Gr2 & S2 & R2).
+      set (dstl := mkPtr true nsid doff (p_len src) (p_size src) maxDepth KList (p_comp src) (p_bit src) false).
+      assert (region_ok (w_dst w2) nsid doff content) as Rl.
+      { eapply region_grows; [exact Gm|]. unfold region_ok. lia. }
+      assert (rpostk w2 (32 * slots src)
+                     (if p_bit src || (PointerCount (p_size src) =? 0)
+                      then copy_bytes w2 InSrc (p_seg src) (p_off src) nsid doff content
+                      else fold_res (iota (Z.to_nat (list_len src))) w2
+                             (fun wa i => do de <- list_struct true dstl i; do se <- list_struct true src i;
+                                          copy_struct f true wa de InSrc se))) as H3.
+      { destruct (p_bit src || (PointerCount (p_size src) =? 0)) eqn:Ebp.
+        - unfold copy_bytes. cbn [w_segs]. rewrite S2.
+          change (nth (Z.to_nat (p_seg src)) (w_src w) []) with (seg_of (w_src w) src).
+          unfold maxSegmentSize in Hsl. rewrite slice_ok by lia. cbn [bind].
+          assert (region_ok (w_dst w2) nsid doff (zlen (sub (seg_of (w_src w) src) (p_off src) content))) as Rb
+            by (rewrite sub_length by lia; exact Rl).
+          destruct (seg_write_safe (w_dst w2) nsid doff (sub (seg_of (w_src w) src) (p_off src) content) D2 Rb)
+            as (m3 & E3 & D3 & N3 & L3 & _).
+          pose proof (seg_write_tot _ _ _ _ _ D2 Rb E3) as T3. rewrite E3.
+          cbn [lift0 bind rpostk]. split; [apply wgood_set_dst; auto; try lia; apply same_len_grows; auto|].
+          rewrite Phi_set_dst, T3. unfold Phi. lia.
+        - assert (p_bit src = false) as B by (destruct (p_bit src); [discriminate|reflexivity]).
+          unfold content in *. rewrite B in *. destruct Hr' as [Hz Hr'].
+          pose proof (totalSize_bound _ Hz) as Hts. pose proof (totalSize_wf _ Hz) as Ets.
+          pose proof (fold_res_postk (wgood w2) Phi (32 * PointerCount (p_size src))
+            (fun wa i => do de <- list_struct true dstl i; do se <- list_struct true src i;
+                         copy_struct f true wa de InSrc se)
+            (iota (Z.to_nat (list_len src))) w2) as FF.
+          match type of FF with ?A -> ?B -> ?C => assert A as HA end.
+          { intros i wa Hi (Da & Ga & Sa & Ra). apply in_iota in Hi.
+            assert (0 <= i < p_len src) as Hi' by (unfold list_len in Hi; rewrite V in Hi; lia).
+            assert (i * totalSize (p_size src) + totalSize (p_size src) <= p_len src * totalSize (p_size src)) as Hie by nia.
+            assert (0 <= i * totalSize (p_size src)) as Hi0 by nia.
+            destruct D1 as [I1 Sm1]. pose proof (Sm1 nsid) as Smn.
+            destruct (list_struct_at dstl i eq_refl B Hi' ltac:(cbn [p_off p_size dstl]; lia)) as [dd ->].
+            cbn [bind p_seg p_off p_size dstl].
+            pose proof (list_struct_safe true (w_src w) src i Hm (conj Hs (fun _ => K))
+                          ltac:(unfold list_len; rewrite V; lia)) as Hse.
+            assert (forall se, list_struct true src i = Ok se ->
+                      (if p_valid se then PointerCount (p_size se) else 0) <= PointerCount (p_size src)) as Hpc.
+            { intros se. unfold list_struct. destruct (_ || _ || _); [discriminate|]. unfold wf_size in Hz.
+              destruct (p_bit src); [intros X; inversion X; cbn; lia|].
+              destruct (element _ _ _); intros X; inversion X; cbn; lia. }
+            destruct (list_struct true src i) as [se| |]; cbn [bind res_sat] in *; [|exact I|exact Hse].
+            pose proof (IH wa (mkPtr true nsid (doff + i * totalSize (p_size src)) 0 (p_size src) dd KStruct false false true)
+                          se Da ltac:(rewrite Sa, S2; exact Hm) ltac:(lia)) as C.
+            specialize (C ltac:(split; [reflexivity|]; split; [exact Hz|]; cbn [p_seg p_off p_size];
+                                eapply region_grows; [exact Ga|]; destruct Rl as (Q1 & Q2 & Q3); unfold region_ok;
+                                rewrite <- Ets; lia)
+                          ltac:(rewrite Sa, S2; exact Hse)).
+            destruct (copy_struct f true wa _ InSrc se) as [w'| |]; cbn [rpostk] in *; [|exact I|exact C].
+            destruct C as [Gc Pc]. split.
+            - eapply wgood_trans; [split; [exact Da|split; [exact Ga|split; [exact Sa|exact Ra]]]|exact Gc].
+            - specialize (Hpc se eq_refl). lia. }
+          specialize (FF HA (wgood_refl w2 D2 ltac:(lia))). clear HA.
+          destruct (fold_res _ _ _) as [w3| |]; cbn [rpostk]; [|exact I|exact FF].
+          destruct FF as [G3 P3]. split; [exact G3|]. rewrite zlen_iota in P3.
+          rewrite Es. unfold list_len in P3. rewrite V in P3. unfold wf_size in Hz. nia. }
+      match goal with |- rpostk w _ (bind (bind ?X _) _) => change X with
+        (if p_bit src || (PointerCount (p_size src) =? 0)
+         then copy_bytes w2 InSrc (p_seg src) (p_off src) nsid doff content
+         else fold_res (iota (Z.to_nat (list_len src))) w2
+                (fun wa i => do de <- list_struct true dstl i; do se <- list_struct true src i;
+                             copy_struct f true wa de InSrc se)) end.
+      destruct (if p_bit src || (PointerCount (p_size src) =? 0) then _ else _) as [w3| |]; cbn [bind];
+        [|exact I|exact H3].
+      cbn [rpostk] in H3. destruct H3 as [H3 P3]. fold dstl.
+      pose proof (wgood_trans _ _ _ (conj D2 (conj Gr2 (conj S2 R2))) H3) as G3.
+      destruct G3 as (D3 & Gr3 & S3 & R3).
+      assert (shape_ok dstl) as Hshl.
+      { intros _. cbn [p_kind p_comp p_bit p_size p_off dstl].
+        destruct (p_comp src); [|exact Hsh]. destruct Hsh as (_ & X & Y). split; [lia|]. split; assumption. }
+      pose proof (list_raw_shape dstl eq_refl eq_refl Hshl) as NR.
+      destruct (list_raw dstl) as [raw| |]; cbn [bind]; [|exact I|congruence].
+      eapply rpostk_weaken; [|eapply (rpostk_trans w w3 (padToWord (list_allocSize src) + 32 * slots src) 16);
+                               [split; [exact D3|split; [exact Gr3|split; [exact S3|exact R3]]]| |]].
+      - lia.
+      - lia.
+      - apply place_k; auto; try lia.
+        + eapply region_grows; eassumption.
+        + cbn [p_seg dstl]. destruct H3 as (_ & [Gn3 _] & _). destruct Gm as [Gnm _]. lia. }
+    destruct (p_comp src) eqn:C.
+    + destruct Hsh as (H8 & _). unfold maxSegmentSize in Hsl.
+      cbn [w_segs w_set_dst w_src w_dst]. rewrite (u32_id (p_off src - 8)) by lia.
+      change (nth (Z.to_nat (p_seg src)) (w_src w) []) with (seg_of (w_src w) src).
+      destruct (readRawPointer_ok (seg_of (w_src w) src) (p_off src - 8) (seg_of_ok _ src Hm) ltac:(lia) ltac:(lia))
+        as [tag [-> _]]. cbn [bind].
+      rewrite Hsz in A2, A3.
+      destruct (writeRaw_safe m1 nsid naddr tag D1 ltac:(unfold region_ok; lia)) as (m2 & -> & D2 & N2 & L2 & _).
+      cbn [lift0 bind].
+      destruct (addSize naddr 8) as [o|] eqn:Eo; [|exact I]. apply addSize_spec in Eo. destruct Eo as [-> _].
+      cbn [bind]. rewrite Hsz at 1. replace (u32 (content + 8 - 8)) with content by (rewrite u32_id; lia).
+      apply Htail; try lia.
+      * cbn [w_set_dst]. eapply wgood_trans; [exact Gw1|].
+        apply wgood_set_dst; auto. apply same_len_grows; auto.
+      * unfold Phi. cbn [w_dst w_set_dst w_src_rl]. rewrite (tot_same _ _ N2 L2). lia.
+      * cbn [w_dst w_set_dst]. apply same_len_grows; auto.
+    + cbn [bind]. rewrite Hsz at 1. rewrite Hsz in A2, A3. apply Htail; try lia; auto.
+      * unfold Phi. cbn [w_dst w_set_dst w_src_rl]. lia.
+      * apply grows_refl.
+  - (* capability *)
+    cbn [is_src]. cbv zeta.
+    set (m1 := mkBM (bm_arena (w_dst w)) (bm_segs (w_dst w)) (bm_caps (w_dst w) ++ [p_len src]) (bm_rl (w_dst w))).
+    pose proof (lift0_write_k (mkW m1 (w_src w) (w_src_rl w)) dsid off
+                  (rawInterfacePointer (u32 (zlen (bm_caps (w_dst w))))) (dok_caps _ _ Hd) Hr Hreg) as H.
+    cbn [w_dst] in H. unfold lift0 in *.
+    destruct (writeRawPointer m1 dsid off _) as [m'| |]; cbn [bind rpostk] in *; auto.
+    destruct H as [G P]. split; [exact G|]. unfold Phi in *. cbn [w_dst w_src_rl w_set_dst] in *.
+    change (tot m1) with (tot (w_dst w)) in P. lia.
+Qed.
+
+Theorem copy_alloc_all : forall f, A_wp f /\ A_cs f.
+Proof.
+  induction f as [|f [IHw IHc]].
+  - split; intros ?; intros; [rewrite write_ptr_O|rewrite copy_struct_O]; exact I.
+  - split; [apply awp_step; assumption|apply acs_step; assumption].
+Qed.
+
+Lemma sumN_le f g n : (forall i, (i < n)%nat -> f i <= g i) -> sumN f n <= sumN g n.
+Proof. induction n as [|n IH]; intros H; cbn [sumN]; [lia|]. specialize (IH ltac:(intros; apply H; lia)). specialize (H n ltac:(lia)). lia. Qed.
+Lemma grows_tot m m' : grows m m' -> tot m <= tot m'.
+Proof.
+  intros [Gn Gl]. unfold nsegs, zlen in Gn. rewrite (tot_upto m (length (bm_segs m'))) by lia. unfold tot.
+  apply sumN_le. intros i _. unfold lenf. apply Gl. lia.
+Qed.
+
+(* copy_alloc: bytes appended to the destination by a cross-message writePtr / copyStruct.
+   [tot dst' - tot dst] <= own padded copy + landing pad + 32 per pointer slot of the source
+   object + 5 x (source traversal budget consumed); the destination never shrinks and the
+   budget never grows.  For an object the reader handed out, own copy + pad <= readSize + 32
+   and 32 x slots <= 4 x readSize, so the whole copy appends at most
+   5 x (readSize src + budget consumed) + 32 bytes: no amplification beyond 5 T + 32. *)
+Theorem write_ptr_alloc f w dsid off src fc w' :
+  dok (w_dst w) -> msg_ok (w_src w) -> 0 <= w_src_rl w -> region_ok (w_dst w) dsid off 8 ->
+  wf_ptr (w_src w) src -> shape_ok src ->
+  write_ptr f true w dsid off InSrc src fc = Ok w' ->
+  0 <= w_src_rl w' <= w_src_rl w /\
+  0 <= tot (w_dst w') - tot (w_dst w) <= wcost src + 32 * slots src + 5 * (w_src_rl w - w_src_rl w') /\
+  tot (w_dst w') - tot (w_dst w) <= 5 * (readSize src + (w_src_rl w - w_src_rl w')) + 32.
+Proof.
+  intros Hd Hm Hr Hreg Hs Hsh E. destruct (copy_alloc_all f) as [H _].
+  specialize (H w dsid off src fc Hd Hm Hr Hreg Hs Hsh). rewrite E in H. destruct H as [(D & G & S & R) P].
+  pose proof (grows_tot _ _ G). pose proof (wcost_le _ src Hm Hs Hsh). pose proof (slots_le_readSize _ src Hm Hs).
+  unfold Phi in P. repeat split; lia.
+Qed.
+
+Theorem copy_struct_alloc f w dst src w' :
+  dok (w_dst w) -> msg_ok (w_src w) -> 0 <= w_src_rl w -> dst_ok (w_dst w) dst ->
+  wf_struct (w_src w) src -> p_valid src = true ->
+  copy_struct f true w dst InSrc src = Ok w' ->
+  0 <= w_src_rl w' <= w_src_rl w /\
+  0 <= tot (w_dst w') - tot (w_dst w) <= 32 * PointerCount (p_size src) + 5 * (w_src_rl w - w_src_rl w').
+Proof.
+  intros Hd Hm Hr Hdst Hs V E. destruct (copy_alloc_all f) as [_ H].
+  specialize (H w dst src Hd Hm Hr Hdst Hs). rewrite E, V in H. destruct H as [(D & G & S & R) P].
+  pose proof (grows_tot _ _ G). unfold Phi in P. repeat split; lia.
+Qed.
